@@ -2,10 +2,10 @@
 from fractions import Fraction
 
 MODES = ["G", "360", "365", "366"]
-YEARS = [-10001, -10000, -401, -400, -399, -101, -100, -99, -5, -4, -1, 0, 1,
-         3, 4, 5, 99, 100, 101, 399, 400, 401, 1582, 1899, 1900, 1901, 1969,
-         1970, 1999, 2000, 2001, 2003, 2004, 2005, 2008, 2009, 2015, 2016,
-         2020, 2099, 2100, 9998, 9999, 10000, 99999]
+YEARS = [-10001, -10000, -401, -400, -399, -101, -100, -99, -5, -4, -2, -1, 0, 1,
+         3, 4, 5, 99, 100, 101, 399, 400, 401, 1582, 1896, 1899, 1900, 1901, 1904, 1969,
+         1970, 1998, 1999, 2000, 2001, 2003, 2004, 2005, 2008, 2009, 2015, 2016,
+         2020, 2096, 2099, 2100, 2104, 2400, 9998, 9999, 10000, 99999]
 OFFSETS = [(0, 0), (0, 1), (0, -1), (0, 30), (0, -30), (0, 59), (0, -59),
            (1, 0), (-1, 0), (5, 30), (-5, -30), (12, 45), (-12, -45),
            (14, 0), (-14, 0), (23, 59), (-23, -59), (24, 0), (-24, 0),
@@ -29,6 +29,26 @@ def month_len(md, y, m):
 
 def year_len(md, y):
     return {"360": 360, "365": 365, "366": 366}.get(md) or (366 if is_leap(y) else 365)
+
+
+def day_number(md, y, doy):
+    """days since 0001-001 of the calendar (generator-side arithmetic; the oracles use the Spec functions)"""
+    if md == "G":
+        base = 365 * (y - 1) + (y - 1) // 4 - (y - 1) // 100 + (y - 1) // 400
+    else:
+        base = year_len(md, y) * (y - 1)
+    return base + doy
+
+
+def weeks_in(md, y):
+    """number of ISO weeks of week-year y: Monday-based weeks counted from the reference Monday 2000-01-03,
+    week 1 is the one containing 4 January"""
+    ref = day_number(md, 2000, 3)
+
+    def wys(yy):
+        n4 = day_number(md, yy, 4)
+        return n4 - (n4 - ref) % 7
+    return (wys(y + 1) - wys(y)) // 7
 
 
 def rand_zone(rng):
@@ -66,8 +86,9 @@ def rand_date(rng, md, y=None, kind=None, boundary=0.6):
         yl = year_len(md, y)
         d = rng.choice([1, 2, 59, 60, 61, yl - 1, yl]) if rng.random() < boundary else rng.randint(1, yl)
         return "O %d %d" % (y, d)
-    # week dates: weeks 1..51 always exist (52 in all but 360day); 53 only sometimes
-    w = rng.choice([1, 2, 50, 51]) if rng.random() < boundary else rng.randint(1, 51)
+    # week dates: the last weeks of the week-year (51..53 depending on calendar and year) are the boundary
+    nw = weeks_in(md, y)
+    w = rng.choice([1, 2, nw - 1, nw, nw]) if rng.random() < boundary else rng.randint(1, nw)
     return "W %d %d %d" % (y, w, rng.choice([1, 4, 7, rng.randint(1, 7)]))
 
 
